@@ -563,9 +563,22 @@ func ruleC06(w *World) {
 	// length), not only the t+1 it goes on to use: the loops that can leave with an error run over the parameters
 	// themselves, never over a truncated view of them
 	w.floor("C06.R13", 1)
-	if fn := w.fn(rootPath, "BLSReconstructThresholdSignature"); fn != nil {
+	if fn0 := w.fn(rootPath, "BLSReconstructThresholdSignature"); fn0 != nil {
 		n := 0
-		for _, b := range fn.Blocks {
+		fn := fn0
+		// the function itself and the unexported helpers it hands its lists to
+		scope := []*ssa.Function{fn0}
+		via := map[*ssa.Function]*ssa.Call{}
+		instrsFlat(fn0, func(ins ssa.Instruction) {
+			if c, ok := ins.(*ssa.Call); ok {
+				if h := c.Call.StaticCallee(); h != nil && inModule(h) && h.Blocks != nil && h.Object() != nil && !h.Object().Exported() && via[h] == nil {
+					via[h] = c
+					scope = append(scope, h)
+				}
+			}
+		})
+		for _, sf := range scope {
+		for _, b := range sf.Blocks {
 			for _, ins := range b.Instrs {
 				ph, ok := ins.(*ssa.Phi)
 				if !ok {
@@ -585,7 +598,7 @@ func ruleC06(w *World) {
 				}
 				// does the loop leave with an error?
 				leaves := false
-				for _, bb := range fn.Blocks {
+				for _, bb := range sf.Blocks {
 					if !ph.Block().Dominates(bb) {
 						continue
 					}
@@ -598,10 +611,23 @@ func ruleC06(w *World) {
 				}
 				n++
 				arg := stripConv(lc.Call.Args[0])
-				_, isParam := arg.(*ssa.Parameter)
+				ap, isParam := arg.(*ssa.Parameter)
+				if isParam && sf != fn0 {
+					// the helper's parameter: what the entry function passes for it must be its own parameter
+					isParam = false
+					if c := via[sf]; c != nil {
+						if i := paramIndex(sf, ap); i >= 0 && i < len(c.Call.Args) {
+							_, isParam = stripConv(c.Call.Args[i]).(*ssa.Parameter)
+							if !isParam {
+								arg = stripConv(c.Call.Args[i])
+							}
+						}
+					}
+				}
 				key := fmt.Sprintf("%s/validation-loop#%d/whole-list", fnKey(fn), n)
 				w.check(isParam, "C06.R13", key, ph.Pos(), "validation loop runs over the whole parameter list", "the loop that refuses invalid entries runs over `"+render(arg)+"`, not over the whole list the caller passed: a duplicate / out-of-range index or a share of the wrong length beyond the truncation point is accepted silently")
 			}
+		}
 		}
 		if n == 0 {
 			w.undecided("C06.R13", fnKey(fn)+"/validation-loop", fn.Pos(), "no validating loop found in the stateless reconstruction")
